@@ -180,7 +180,7 @@ func cmdFX(args []string) {
 	fs.Parse(args)
 	cases := readNDJSON(*in)
 	w := newShardWriter(*out, 1)
-	n, bad, hung, withFor, expanded := 0, 0, 0, 0, 0
+	n, bad, div, hung, withFor, expanded := 0, 0, 0, 0, 0, 0
 	for _, c := range cases {
 		var toks []gmars.VerifToken
 		hasFor := false
@@ -200,23 +200,35 @@ func cmdFX(args []string) {
 		}
 		r := runFX(toks)
 		n++
-		ok := !r.hung && r.pan == "" && r.leak == 0 && strings.Join(r.out, " ") == strings.Join(want, " ")
+		// what the property (C05) requires of this call: it returns, does not panic, leaves no goroutine behind, and hands
+		// the consumer a well-terminated stream.  An output that differs from the model's but meets all that is a divergence
+		// between model and code, recorded but not a violation.
+		prop := r.hung || r.pan != "" || r.leak != 0 || !shapeOK(r.out)
+		same := strings.Join(r.out, " ") == strings.Join(want, " ")
 		if len(want) > len(toks) {
 			expanded++
 		}
-		if !ok {
-			bad++
+		if prop || !same {
+			kind := "divergence"
+			if prop {
+				kind = "property"
+				bad++
+			} else {
+				div++
+			}
 			hv := 0
 			if r.hung {
 				hv = 1
 				hung++
 			}
-			w.line(fmt.Sprintf(`{"in":%s,"want":%s,"got":%s,"panic":%s,"hung":%d,"leak":%d,"frame":%s}`, mustJSON(c["in"]), strsJSON(want), strsJSON(r.out), jq(r.pan), hv, r.leak, jq(r.frame)))
+			if prop || div <= 25 {
+				w.line(fmt.Sprintf(`{"kind":%q,"in":%s,"want":%s,"got":%s,"panic":%s,"hung":%d,"leak":%d,"frame":%s}`, kind, mustJSON(c["in"]), strsJSON(want), strsJSON(r.out), jq(r.pan), hv, r.leak, jq(r.frame)))
+			}
 			if hung > 20 || bad >= 25 {
 				break // enough evidence; every further leaking case costs a settle loop
 			}
 		}
 	}
 	w.close()
-	fmt.Printf(`{"cases":%d,"mismatches":%d,"hung":%d,"with_for":%d,"output_longer_than_input":%d}`+"\n", n, bad, hung, withFor, expanded)
+	fmt.Printf(`{"cases":%d,"mismatches":%d,"divergences":%d,"hung":%d,"with_for":%d,"output_longer_than_input":%d}`+"\n", n, bad, div, hung, withFor, expanded)
 }
